@@ -37,18 +37,19 @@ terminator, separators and operand order printed are those of the assembler's gr
 theorem text_eq_render (i : Instr) (a : Nat) : text i a = render (parts i a) :=
   text_eq_render_proof i a
 
-/-- the printed label is the architectural target: the statement address plus 4 (word-aligned first for
-ADR and literal LDR) plus the offset, whenever that lies inside the address space -/
+/-- C19.d  The printed label is the architectural target: the statement address plus 4 (word-aligned first for
+ADR and literal LDR) plus the offset, in unbounded arithmetic (`Front.alPc` / `Front.pcOf` do not wrap),
+whenever that lies inside the address space -/
 theorem label_is_target (i : Instr) (a : Nat) (t : Nat) (h : targetOf i a = some t) (hp : Printable i a) :
     (t : Int) = (match i with
-      | .adr _ off => (alPc a : Int) + off
-      | .ldr _ _ (.imm off) => (alPc a : Int) + off
-      | .b _ off | .bl off => (pcOf a : Int) + off
+      | .adr _ off => (Front.alPc a : Int) + off
+      | .ldr _ _ (.imm off) => (Front.alPc a : Int) + off
+      | .b _ off | .bl off => (Front.pcOf a : Int) + off
       | _ => t) := by
   cases i <;> simp only [targetOf] at h <;> try cases h
-  case adr d off => obtain ⟨h0, h1, h4, ht⟩ := hp; exact wrapAdd_eq _ _ (by omega) ht
-  case b c off => obtain ⟨_, _, _, h0, ht⟩ := hp; exact wrapAdd_eq _ _ h0 ht
-  case bl off => obtain ⟨_, _, _, h0, ht⟩ := hp; exact wrapAdd_eq _ _ h0 ht
+  case adr d off => obtain ⟨h0, h1, h4, ht⟩ := hp; exact wrapAdd_alPc _ _ (by omega) ht
+  case b c off => obtain ⟨_, _, _, h0, ht⟩ := hp; exact wrapAdd_pcOf _ _ h0 ht
+  case bl off => obtain ⟨_, _, _, h0, ht⟩ := hp; exact wrapAdd_pcOf _ _ h0 ht
   case ldr d ad o =>
     cases o with
     | reg r => cases h
@@ -59,15 +60,16 @@ theorem label_is_target (i : Instr) (a : Nat) (t : Nat) (h : targetOf i a = some
         cases h
         simp only [Printable, h15, if_true] at hp
         obtain ⟨h0, h1, h4, ht⟩ := hp
-        exact wrapAdd_eq _ _ (by omega) ht
+        exact wrapAdd_alPc _ _ (by omega) ht
       · cases h
 
 /-- non-vacuity: a backward conditional branch at 0x20000000 and a PC-relative load are `Printable` -/
-example : Printable (.b 0 (-4)) 0x20000000 ∧ Printable (.ldr 1 15 (.imm 8)) 2 ∧ Printable (.push 0x40F0) 0 := by
-  refine ⟨?_, ?_, trivial⟩ <;> simp [Printable, bLo, bHi, pcOf, alPc] <;> decide
+example : Printable (.b 0 (-4)) 0x20000000 ∧ Printable (.ldr 1 15 (.imm 8)) 2 ∧ Printable (.push 0x40F0) 0 ∧
+    Printable (.b 14 (-16)) 0xFFFFFFFC := by
+  refine ⟨?_, ?_, trivial, ?_⟩ <;> simp [Printable, bLo, bHi, Front.pcOf, Front.alPc] <;> decide
 
 /-- the side condition is needed: at 0 a branch by −8 has no target inside the address space, and the text
 (`B l_FFFFFFFC;`) does not assemble back -/
-example : ¬ Printable (.b 14 (-8)) 0 := by simp [Printable, pcOf]
+example : ¬ Printable (.b 14 (-8)) 0 := by simp [Printable, Front.pcOf]
 
 end Trion.Show
